@@ -137,6 +137,50 @@ def combos(c, item):
     c.nontrivial(('combo', tuple(idxs), tuple(xs), positive))
 
 
+_SEQ_DONE = []
+
+
+def sequence(c, item):
+    """a prior is evaluated after other priors were evaluated under the SAME parameter name (a second interface object, or the same
+    object with its prior dictionary replaced): the answer is still the log-density of the prior in force"""
+    from bioscrape.pid_interfaces import PIDInterface
+    F = families()
+    hist, how = item
+    pid = None
+    before = list(_SEQ_DONE)          # what this process evaluated earlier (replayed first, so that a case reproduces from a fresh process)
+    _SEQ_DONE.append([list(hist), how])
+    for step, fi in enumerate(hist):
+        fam = F[fi]
+        spec = [fam[0]] + fam[1]
+        if how == 'new-object' or pid is None:
+            pid = PIDInterface(['p'], FakeModel(), {'p': spec})
+        else:
+            pid.prior = {'p': spec}
+        for x in (0.4, 1.7, 0.05):
+            exp = expected(fam, x, False)
+            c.count('evaluations'); c.count('transitions')
+            case = dict(history=[[F[j][0]] + F[j][1] for j in hist], how=how, step=step, x=x, hist=list(hist), before=before)
+            try:
+                with np.errstate(all='ignore'):
+                    got = float(pid.check_prior({'p': x}))
+            except Exception as e:
+                c.violation('C16/sequence/%s/exception' % fam[0], 'check_prior raised %r at step %d of %s' % (e, step, case['history']), case)
+                return
+            if exp == 'underflow':
+                continue
+            if exp is None:
+                if math.isfinite(got):
+                    c.violation('C16/sequence/%s/out-of-support-finite' % fam[0], 'step %d of %s (%s): finite log-prior %r at x=%r outside the support' % (
+                        step, case['history'], how, got, x), case)
+                    return
+            elif not math.isfinite(got) or abs(got - exp) > 1e-10 * (1 + abs(exp)):
+                c.violation('C16/sequence/%s/density' % fam[0], 'step %d of %s (%s): log-prior %r at x=%r, log-density %r' % (
+                    step, case['history'], how, got, x, exp), case)
+                return
+    c.count('states')
+    c.nontrivial(('sequence', tuple(hist), how))
+
+
 def cost(c, item):
     """out-of-support theta through InferenceSetup.cost_function must be -inf; inside: prior + likelihood"""
     import pandas as pd
@@ -191,11 +235,17 @@ def run(ctx):
                     cit.append((idxs, xs, list(pos)))
     pmap(combos, cit, ctx, nshards=64)
     pmap(cost, items, ctx, nshards=32)
-    ctx.bounds = dict(families=len(F), single_items=len(items), combinations=len(cit))
+    # histories of priors under one parameter name: every ordered pair (thorough: and triples over a reduced menu)
+    seqs = [(h, how) for h in itertools.permutations(range(len(F)), 2) for how in ('new-object', 'same-object')]
+    red = [i for i, f in enumerate(F)][::3]
+    if not ctx.quick:
+        seqs += [(h, how) for h in itertools.permutations(red, 3) for how in ('new-object', 'same-object')]
+    pmap(sequence, seqs, ctx, nshards=32)
+    ctx.bounds = dict(families=len(F), single_items=len(items), combinations=len(cit), prior_histories=len(seqs))
     ctx.rule = ('E2, exhaustive over the stated alphabets: 7 prior families x parameter alphabets (%d parameterisations) x with/without the '
                 'positive flag x values (9 interior points, support edges +-{0,1e-9,1e-3}, negative values, 0, values > 1), through '
                 'PIDInterface.check_prior and through InferenceSetup.cost_function; all combinations of 2..4 parameters from a 7-family menu '
-                'x {inside, inside, negative} values x every per-parameter pattern of the positive flag. Oracle: scipy.stats logpdf summed over parameters where it is finite (1e-10), and a '
+                'x {inside, inside, negative} values x every per-parameter pattern of the positive flag; every ordered pair (thorough: triples over a third of the menu) of parameterisations evaluated one after the other under the same parameter name, on a new interface object or on the same object with its prior replaced. Oracle: scipy.stats logpdf summed over parameters where it is finite (1e-10), and a '
                 'non-finite log-prior / -inf cost where scipy gives -inf or +inf or the positive flag rejects. states = parameterisations; a '
                 'parameterisation is non-trivial when it has values inside and outside the support; each combination counts once.' % len(F))
     ctx.assumptions = ['values whose log-density is below -690 (density under the smallest double) are not compared', 'scipy.stats densities as the meaning of the prior names; gamma is (shape, rate), log-gaussian is lognormal(mu, sigma)']
@@ -203,6 +253,11 @@ def run(ctx):
 
 def replay(ctx, case):
     F = families()
+    if 'hist' in case:
+        from ..core import Collector
+        for h, how in case.get('before', []):
+            sequence(Collector(), (tuple(h), how))
+        return sequence(ctx, (tuple(case['hist']), case['how']))
     if 'family' in case:
         for i, f in enumerate(F):
             if f[0] == case['family'] and f[1] == case['params']:
